@@ -68,6 +68,18 @@ func C27(run *Run) {
 		run.Evals++
 		run.Nontrivial("psk:" + c.tok)
 	}
+	// a key list with a repeated entry (merged key sources during a rotation)
+	if pkd, err := presharedkey.NewPresharedKeyAuthenticator([]string{keys[0], keys[1], keys[0]}); err == nil {
+		for _, c := range cands {
+			_, aerr := pkd.Authenticate(bearerCtx(c.tok))
+			rel := c.rel
+			if c.tok == keys[0] || c.tok == keys[1] {
+				rel = "equal"
+			}
+			events = append(events, map[string]any{"e": "Preshared", "rel": rel, "accepted": aerr == nil, "token": c.tok, "keys": "repeated entry"})
+			run.Evals++
+		}
+	}
 	_, errNoHeader := pk.Authenticate(context.Background())
 	events = append(events, map[string]any{"e": "Preshared", "rel": "no header", "accepted": errNoHeader == nil, "token": ""})
 	// ---- OIDC
